@@ -224,6 +224,48 @@ def extract(missing):
     f["chunkEndOffsetChecked"] = bool(re.search(
         r"\.checked_add\(dict\.archive_offset\)\s*\.filter\(\|(\w+)\| \1\.checked_add\(u64::from\(dict\.archive_size\)\)\.is_some\(\)\)\s*"
         r"\.ok_or_else\(\|\| ArchiveError::invalid_archive\(", ti))
+    # 9. validation added by F13-F20: the header must end within 64 bits; the chunks in rebuild order add up
+    # to the declared source size; the hash length is 1..=64; a decoded chunk has exactly its declared size;
+    # --verify-output hashes the first source-size bytes only; the library writer flushes its temp file before
+    # reading it back; an over-long --verify-header value is refused
+    f["headerEndChecked"] = bool(re.search(
+        r"\.checked_add\(8 \+ 64\)\s*\.filter\(\|(\w+)\| \1\.checked_add\(header::PRE_HEADER_SIZE\)\.is_some\(\)\)\s*\.ok_or_else\(", ti))
+    f["sourceSizeSumChecked"] = bool(re.search(
+        r"let (\w+) = source_order\.iter\(\)\.try_fold\(0u64, \|(\w+), &(\w+)\| \{\s*\2\.checked_add\(u64::from\(archive_chunks\[\3\]\.source_size\)\)\s*\}\);"
+        r"\s*if \1 != Some\(dictionary\.source_total_size\) \{\s*return Err\(", ti))
+    f["hashLengthChecked"] = bool(re.search(
+        r"if chunk_hash_length == 0 \|\| chunk_hash_length > HashSum::MAX_LEN \{\s*return Err\(", ti))
+    chunk_rs = strip_comments(rd("bitar/src/chunk.rs"))
+    dcs = [m.start() for m in re.finditer(r"pub fn decompress\(self\) -> Result<Chunk, CompressionError>", chunk_rs)]
+    dbody = ""
+    if dcs:
+        i0 = chunk_rs.index("{", dcs[0])
+        depth, k = 0, i0
+        while k < len(chunk_rs):
+            if chunk_rs[k] == "{":
+                depth += 1
+            elif chunk_rs[k] == "}":
+                depth -= 1
+                if depth == 0:
+                    break
+            k += 1
+        dbody = chunk_rs[i0:k + 1]
+    f["chunkLengthChecked"] = bool(re.search(r"let source_size = self\.source_size;", dbody)) and \
+        bool(re.search(r"if chunk\.len\(\) != source_size \{\s*return Err\(", dbody)) and dbody.rstrip().endswith("Ok(chunk)\n    }")
+    fc = fn_body(clone, "file_checksum") or ""
+    f["verifyHashesSourceSizeOnly"] = bool(re.search(r"file_checksum\(&mut \w+, archive\.total_source_size\(\)\)", ca)) and \
+        bool(re.search(r"let mut left = size;\s*while left > 0 \{\s*let want = std::cmp::min\(left, buffer\.len\(\) as u64\) as usize;"
+                       r"\s*let rc = file\.read\(&mut buffer\[0\.\.want\]\)\.await\?;", fc)) and \
+        bool(re.search(r"left -= rc as u64;", fc))
+    la = fn_body(lib, "create_archive") or ""
+    mfl = [m.start() for m in re.finditer(r"temp_file\s*\.flush\(\)\s*\.await", la)]
+    mrw = re.search(r"temp_file\s*\.rewind\(\)", la)
+    mwr = [m.start() for m in re.finditer(r"temp_file\s*\.write_all\(", la)]
+    f["libTempFlushedBeforeRewind"] = bool(mfl and mrw and mwr and mwr[-1] < mfl[-1] < mrw.start())
+    cli_rs = strip_comments(rd("src/cli.rs"))
+    ph = fn_body(cli_rs, "parse_hash_sum") or ""
+    f["pinLengthChecked"] = bool(re.search(r"if (\w+)\.len\(\) > HashSum::MAX_LEN \{\s*return Err\(", ph)) and \
+        bool(re.search(r"\.value_parser\(parse_hash_sum\)", cli_rs))
     return f
 
 
@@ -324,6 +366,14 @@ def gen(f):
         "def decompressOutputLimited : Bool := %s" % ("true" if f.get("decompressOutputLimited") else "false"),
         "/-- `try_init` also checks that `chunk_data_offset + archive_offset + archive_size` fits 64 bits -/",
         "def chunkEndOffsetChecked : Bool := %s" % ("true" if f.get("chunkEndOffsetChecked") else "false"),
+        "/-- validation and repairs F13-F20 (see facts.py section 9) -/",
+        "def headerEndChecked : Bool := %s" % ("true" if f.get("headerEndChecked") else "false"),
+        "def sourceSizeSumChecked : Bool := %s" % ("true" if f.get("sourceSizeSumChecked") else "false"),
+        "def hashLengthChecked : Bool := %s" % ("true" if f.get("hashLengthChecked") else "false"),
+        "def chunkLengthChecked : Bool := %s" % ("true" if f.get("chunkLengthChecked") else "false"),
+        "def verifyHashesSourceSizeOnly : Bool := %s" % ("true" if f.get("verifyHashesSourceSizeOnly") else "false"),
+        "def libTempFlushedBeforeRewind : Bool := %s" % ("true" if f.get("libTempFlushedBeforeRewind") else "false"),
+        "def pinLengthChecked : Bool := %s" % ("true" if f.get("pinLengthChecked") else "false"),
         "/-- `poll_read_fail` truncates a body frame longer than what is still requested -/",
         "def httpFragmentClipped : Bool := %s" % ("true" if f.get("httpFragmentClipped") else "false"),
         "",
